@@ -44,6 +44,25 @@ def showHW (st : HWSt) : String :=
 def settleAll (st : HWSt) (fuel : Nat) : HWSt :=
   { st with s := st.ids.foldl (fun s id => settleOne id fuel s) st.s }
 
+/-- `advance`: the part of `ReadMessage` that runs without consulting the log's HW — from
+`creating`/`idle`/`reading` until one more message is delivered, or the reader reaches its limit
+(`atlimit`: its next action is the HW sample) or dies. The stepped real reader of the harness does
+the same by ONE real `ReadMessage` call (or by none, when the real reader's fields say it stands
+at its limit). -/
+def advance (id : Nat) (n0 : Nat) : Nat → HWReader.State → HWReader.State
+  | 0, s => s
+  | fuel + 1, s =>
+    match s.readers id with
+    | none => s
+    | some r =>
+      if r.delivered.length > n0 then s else
+      match r.phase with
+      | .creating | .idle | .reading =>
+        match nextOp id r.phase with
+        | some op => advance id n0 fuel (step s op)
+        | none => s
+      | _ => s
+
 def parseReaderOp (name : String) (id : Nat) : Option Op :=
   if name = "init" then some (.initReader id)
   else if name = "begin" then some (.beginRead id)
@@ -112,6 +131,21 @@ def hwStep (st : HWSt) (toks : List String) : HWSt × String :=
     | some id =>
       match parseReaderOp name id with
       | some op => apply op
+      | none => (st, "bad-op")
+    | none => (st, "bad-op")
+  | ["rstep", name, id] =>
+    -- one step of reader `id` of the stepped schedules, answered with the reader's line
+    match id.toNat? with
+    | some id =>
+      let s' : Option HWReader.State :=
+        if name = "advance" then
+          (st.s.readers id).map fun r => advance id r.delivered.length 100000 st.s
+        else if name = "none" then some st.s   -- a parked or dead reader is scheduled: nothing happens
+        else (parseReaderOp name id).map (step st.s)
+      match s' with
+      | some s' =>
+        let st' := { st with s := s' }
+        (st', "ok " ++ ((s'.readers id).map (showReader id)).getD "-" ++ " | " ++ showHW st')
       | none => (st, "bad-op")
     | none => (st, "bad-op")
   | ["next", id] =>
